@@ -238,6 +238,22 @@ func Main(id, tier string, seed int64, self string) int {
 	var results []*CaseResult
 	var harnessErrs []string
 	violating, skipped := 0, 0
+	ffKnown := loadFindings()
+	// fresh tells whether a case has a violation that is not a known finding
+	fresh := func(r *CaseResult) bool {
+		for _, v := range r.Violations {
+			known := false
+			for _, f := range ffKnown.Findings {
+				if f.Property == id && f.Signature == v.Sig {
+					known = true
+				}
+			}
+			if !known {
+				return true
+			}
+		}
+		return false
+	}
 	var wg sync.WaitGroup
 	for k := 0; k < par; k++ {
 		wg.Add(1)
@@ -282,7 +298,7 @@ func Main(id, tier string, seed int64, self string) int {
 					mu.Lock()
 					results = append(results, rs...)
 					for _, r := range rs {
-						if len(r.Violations) != 0 {
+						if fresh(r) {
 							violating++
 						}
 					}
